@@ -11,6 +11,7 @@ import (
 	"io"
 	"net/http"
 	"net/http/httptest"
+	"regexp"
 	"sort"
 	"strings"
 	"sync"
@@ -151,6 +152,26 @@ func perrCoq(err error, decodedOK bool) (string, string) {
 	return "EDecode", "other:" + err.Error()
 }
 
+// a body larger than 64 KiB (a failed backend's body must not be cut in error_<name> / the error)
+var bigBody = strings.Repeat("01234567890123456789", 3300)
+
+var bigPrefixRe = regexp.MustCompile(`"(?:01234567890123456789){150,}[0-9]{0,19}"`)
+
+const bigBodyTerm = `(String.concat "" (List.repeat "01234567890123456789" 3300))`
+
+// gatedBody serves its data only once the context is done: a backend whose status line arrived in
+// time but whose body is still arriving when the deadline fires
+type gatedBody struct {
+	ctx  context.Context
+	data *strings.Reader
+}
+
+func (g *gatedBody) Read(p []byte) (int, error) {
+	<-g.ctx.Done()
+	return g.data.Read(p)
+}
+func (g *gatedBody) Close() error { return nil }
+
 var bodies = []struct{ body, enc string }{
 	{`{"a":1,"secret":"MARKER-json-body-0001"}`, "application/json"},
 	{"MARKER-plain-text-body-0002", "text/plain"},
@@ -186,8 +207,12 @@ func main() {
 		obsJS       interface{}
 		dec         map[string]interface{}
 	}
+	var observeCtx func(ctx context.Context, p proxy.Proxy, rp reply, u string) pobs
 	observe := func(p proxy.Proxy, rp reply, u string) pobs {
-		resp, err := p(context.Background(), &proxy.Request{Method: "GET", URL: mustURL(u), Headers: map[string][]string{}})
+		return observeCtx(context.Background(), p, rp, u)
+	}
+	observeCtx = func(ctx context.Context, p proxy.Proxy, rp reply, u string) pobs {
+		resp, err := p(ctx, &proxy.Request{Method: "GET", URL: mustURL(u), Headers: map[string][]string{}})
 		dec := decodeIndependent(rp.body)
 		obs := "None"
 		var obsJS interface{}
@@ -208,6 +233,16 @@ func main() {
 	}
 	emitProxy := func(d, c cfgval, rp reply, o pobs, level string) {
 		term := emit.App("CProxy", d.coq(), c.coq(), rp.coq(), optObj(o.dec, o.dec != nil), emit.Pair(o.obs, o.ec))
+		// the 66 000-byte body is written as a computed term (parsing a literal of that size costs seconds)
+		term = strings.ReplaceAll(term, emit.Str(bigBody), bigBodyTerm)
+		// ... and so is any long prefix of it that comes back (a cut body), else coqc overflows its stack
+		term = bigPrefixRe.ReplaceAllStringFunc(term, func(lit string) string {
+			n := len(lit) - 2
+			if !strings.HasPrefix(bigBody, lit[1:len(lit)-1]) {
+				return lit
+			}
+			return fmt.Sprintf("(String.substring 0 (N.to_nat %d%%N) %s)", n, bigBodyTerm)
+		})
 		js := map[string]interface{}{"level": level, "details": d.String(), "code_cfg": c.String(), "reply": rp.js(), "observed": map[string]interface{}{"resp": o.obsJS, "err": o.ej}}
 		canon := fmt.Sprintf("%s|%v|%v|%d|%s|%s", level, d, c, rp.code, rp.body, rp.enc)
 		w.Count("level:" + level)
@@ -310,6 +345,30 @@ func main() {
 			for _, code := range []int{200, 201, 202, 404, 500} {
 				b := bodies[r.Intn(len(bodies))]
 				proxyCase(d, c, reply{code, b.body, b.enc})
+			}
+		}
+	}
+
+	// ---- proxy level: large error bodies, and bodies that arrive only when the deadline fires ----
+	for _, m := range [][2]cfgval{{detailsVals[0], codeVals[0]}, {detailsVals[0], codeVals[1]}, {detailsVals[2], codeVals[0]}} {
+		for _, code := range []int{200, 404, 503} {
+			proxyCase(m[0], m[1], reply{code, bigBody, "text/plain"})
+		}
+		for _, code := range []int{204, 302, 404, 429, 500, 503} {
+			for _, b := range bodies[:2] {
+				rp := reply{code, b.body, b.enc}
+				be := &config.Backend{Encoding: encoding.JSON, Decoder: encoding.JSONDecoder, ExtraConfig: extra(m[0], m[1])}
+				ctx, cancel := context.WithTimeout(context.Background(), 40*time.Millisecond)
+				exec := func(c context.Context, _ *http.Request) (*http.Response, error) {
+					h := http.Header{}
+					if rp.enc != "" {
+						h.Set("Content-Type", rp.enc)
+					}
+					return &http.Response{StatusCode: rp.code, Header: h, Body: &gatedBody{ctx, strings.NewReader(rp.body)}}, nil
+				}
+				p := proxy.NewHTTPProxyWithHTTPExecutor(be, exec, be.Decoder)
+				emitProxy(m[0], m[1], rp, observeCtx(ctx, p, rp, "http://h/slow"), "proxy-slow-body")
+				cancel()
 			}
 		}
 	}
